@@ -215,7 +215,7 @@ func checkC07(w *World, tier string) *Report {
 	r := newReport("C07")
 	r.Explanation = "R7.1 (go/cfg, all paths of Call and create): SaveCall executes exactly once before every return and exactly one deferred closure calling ExitCall is registered after it and before any return or nested execution, outside loops; " +
 		"R7.2 (resolved call sites and SSA store inventory over all fork packages): CallTree.add is called only by Tracer.SaveCall, which is called only by Call and create; CallTree.exit only by Tracer.ExitCall, only from those deferred closures; the fields root/current/count/lookup of CallTree and Index/Parent/Children of Call are stored only in add/exit; " +
-		"R7.3 (SSA def-use on add and exit): count is stored once as load(count)+1; the new node's Index and the lookup key are loads of count that precede that store; Parent is the cursor loaded before the cursor is moved; lookup[count] = the new node; the append to the parent's Children is guarded by cursor != nil and appends the new node; exit moves the cursor to its Parent on every path with a non-nil cursor. These are necessary conditions of dense indices, parent links and a closed cursor; exported SaveCall/ExitCall called by a host are outside the repository."
+		"R7.3 (SSA def-use on add and exit): count is stored once as load(count)+1; the new node's Index and the lookup key are loads of count that precede that store; Parent is the cursor loaded before the cursor is moved; lookup[count] = the new node; the append to the parent's Children is guarded by cursor != nil and appends the new node; exit moves the cursor to its Parent on every path with a non-nil cursor. R7.4 (all SSA paths of every function that stores to root, count or lookup outside the constructor): the lookup table is replaced if and only if the counter is set back to 0 on the same path (the keys of lookup stay exactly 0..count-1 across repeated top-level invocations on one EVM), and entries are never deleted. These are necessary conditions of dense indices, parent links and a closed cursor; exported SaveCall/ExitCall called by a host are outside the repository."
 	addR71(w, r, "R7.1")
 	vmCall, vmCreate := "vm.(*EVM).Call", "vm.(*EVM).create"
 	whoMayCall(w, r, "R7.2", "CallTree.add", funcIs("CallTree", "add"), map[string]bool{"vm.(*Tracer).SaveCall": true}, false)
@@ -231,6 +231,7 @@ func checkC07(w *World, tier string) *Report {
 	})
 	r.need("R7.2", 15)
 	addR73(w, r, "R7.3")
+	addR74(w, r, "R7.4")
 	r.Assumptions = append(r.Assumptions, "one goroutine per EVM; exported Tracer.SaveCall/ExitCall are not called by the host")
 	return r
 }
@@ -340,7 +341,15 @@ func addR73(w *World, r *Report, rule string) {
 	}
 	// count: one store of load(count)+1
 	okCount := false
-	if ss := stores["CallTree.count"]; len(ss) == 1 {
+	var incs []*ssa.Store
+	for _, st := range stores["CallTree.count"] {
+		// a reset to the constant 0 is governed by R7.4 (it must come with a fresh lookup table)
+		if k, ok := st.Val.(*ssa.Const); ok && k.Value != nil && k.Value.ExactString() == "0" {
+			continue
+		}
+		incs = append(incs, st)
+	}
+	if ss := incs; len(ss) == 1 {
 		countStore = ss[0]
 		if bo, ok := countStore.Val.(*ssa.BinOp); ok && bo.Op == token.ADD {
 			if _, base, ok := loadOfField(bo.X, "count"); ok && base == recv {
@@ -509,4 +518,118 @@ func guardedBy(b *ssa.BasicBlock, field string, recv ssa.Value, nonNil bool) boo
 		}
 	}
 	return false
+}
+
+// ---- R7.4: the index space is never restarted inconsistently ---------------------------------------------
+
+// addR74: dense indices 0..n-1 with FindCall(i).Index == i rest on the invariant "the keys of lookup are
+// exactly 0..count-1". add keeps it by lookup[count] = node; count++. Any other write must keep it too:
+// on every path of every function other than the constructor, the lookup table is replaced (a store to the
+// field itself) if and only if the counter is set back to the constant 0, and a path that does either also
+// clears or re-assigns root. Deleting entries from lookup is never allowed.
+func addR74(w *World, r *Report, rule string) {
+	vm := forkPath(pkVM)
+	n := 0
+	for _, top := range w.Funcs(vm) {
+		for _, fn := range withAnon(top) {
+			touches := false
+			for _, b := range fn.Blocks {
+				for _, ins := range b.Instrs {
+					switch x := ins.(type) {
+					case *ssa.Store:
+						if fa, ok := x.Addr.(*ssa.FieldAddr); ok {
+							switch fieldID(fa) {
+							case "P0.CallTree.lookup", "P0.CallTree.count", "P0.CallTree.root":
+								if _, isAlloc := fa.X.(*ssa.Alloc); !isAlloc {
+									touches = true
+								}
+							}
+						}
+					case *ssa.Call:
+						if bi, ok := x.Call.Value.(*ssa.Builtin); ok && (bi.Name() == "delete" || bi.Name() == "clear") && len(x.Call.Args) > 0 {
+							if u, ok := x.Call.Args[0].(*ssa.UnOp); ok && u.Op == token.MUL {
+								if fa, ok := u.X.(*ssa.FieldAddr); ok && fieldID(fa) == "P0.CallTree.lookup" {
+									n++
+									r.violated(rule, relName(fn)+"/delete", w.pos(x.Pos()), "entries are removed from the index lookup table: FindCall would no longer return every recorded node")
+								}
+							}
+						}
+					}
+				}
+			}
+			if !touches {
+				continue
+			}
+			n++
+			key := relName(fn)
+			// enumerate acyclic paths
+			type flags struct{ lookup, zero, root, other bool }
+			var bad []string
+			paths := 0
+			var walk func(b *ssa.BasicBlock, onPath map[*ssa.BasicBlock]bool, f flags)
+			walk = func(b *ssa.BasicBlock, onPath map[*ssa.BasicBlock]bool, f flags) {
+				if onPath[b] || paths > 2000 {
+					return
+				}
+				onPath[b] = true
+				defer delete(onPath, b)
+				for _, ins := range b.Instrs {
+					st, ok := ins.(*ssa.Store)
+					if !ok {
+						continue
+					}
+					fa, ok := st.Addr.(*ssa.FieldAddr)
+					if !ok {
+						continue
+					}
+					switch fieldID(fa) {
+					case "P0.CallTree.lookup":
+						f.lookup = true
+					case "P0.CallTree.root":
+						f.root = true
+					case "P0.CallTree.count":
+						if k, ok := st.Val.(*ssa.Const); ok && k.Value != nil && k.Value.ExactString() == "0" {
+							f.zero = true
+						} else if bo, ok := st.Val.(*ssa.BinOp); ok && bo.Op == token.ADD {
+							// the increment (R7.3 checks its exact form)
+						} else {
+							f.other = true
+						}
+					}
+				}
+				if _, ok := b.Instrs[len(b.Instrs)-1].(*ssa.Return); ok || len(b.Succs) == 0 {
+					paths++
+					switch {
+					case f.other:
+						bad = append(bad, "a path stores something other than 0 or count+1 into the call counter")
+					case f.lookup != f.zero:
+						if f.lookup {
+							bad = append(bad, "a path replaces the index lookup table without setting the call counter back to 0: later nodes get indices that continue the old numbering while the nodes carrying the earlier indices are forgotten")
+						} else {
+							bad = append(bad, "a path sets the call counter back to 0 without replacing the index lookup table: new nodes overwrite the entries of earlier ones")
+						}
+					case f.lookup && !f.root:
+						bad = append(bad, "a path restarts the index space but keeps the old root")
+					}
+					return
+				}
+				for _, s := range b.Succs {
+					walk(s, onPath, f)
+				}
+			}
+			if len(fn.Blocks) > 0 {
+				walk(fn.Blocks[0], map[*ssa.BasicBlock]bool{}, flags{})
+			}
+			bad = dedup(bad)
+			if paths > 2000 {
+				r.undecided(rule, key, w.pos(fn.Pos()), "too many paths")
+			} else if len(bad) > 0 {
+				r.violated(rule, key, w.pos(fn.Pos()), strings.Join(bad, " | "))
+			} else {
+				r.holds(rule, key, w.pos(fn.Pos()), fmt.Sprintf("%d paths: lookup table replaced iff counter reset, on every path", paths))
+			}
+		}
+	}
+	r.need(rule, 1)
+	_ = n
 }
